@@ -304,6 +304,10 @@ func genC05(g engine.G) *engine.Case {
 		// premise (b): acyclic-by-construction multi-input sets with diamonds
 		sc = engine.GenLayered(g, o)
 	}
+	if g.Pct(2) {
+		// premise (a) at a size the other profiles never reach
+		return &engine.Case{Sc: engine.GenMany(g), Reps: 2}
+	}
 	return &engine.Case{Sc: sc, Reps: 10}
 }
 
